@@ -337,7 +337,7 @@ class Gaussian(Distribution):
             else:
                 perturbation = spa.linalg.spsolve(self.sqrtprec, e)
         else:
-            if np.allclose(self.sqrtprec, np.tril(self.sqrtprec)): # matrix is triangular
+            if np.allclose(self.sqrtprec, np.tril(self.sqrtprec), atol=0): # matrix is triangular
                 perturbation = splinalg.solve_triangular(self.sqrtprec, e, lower=True)
             else:
                 perturbation = splinalg.solve(self.sqrtprec, e)
